@@ -28,7 +28,7 @@ PRE = [
     (r'st_pairing_algorithm\( state, (?:this->)?(legacy|lesc)_select_pairing_algorithm\(', r'st_pairing_algorithm_\1( state, \1_select_pairing_algorithm(', '*'),
     (r'st_passkey\( state, key \)', 'st_passkey_set( state, key )', '*'),
     (r'(?:this->)?error_response\( ((?:details::)?sm_error_codes::\w+), output, out_size, state \)', r'error_response4( \1, output, out_size, state )', '*'),
-    (r'details::error_response\( error_code, output, out_size \)', 'error_response( error_code, output, out_size )', '*'),
+    (r'details::error_response\( ([^,;]+), output, out_size \)', r'error_response( \1, output, out_size )', '*'),
     (r'(?:this->)?create_pairing_response\( output, out_size, ', 'create_pairing_response( output, out_size, ', '*'),
     (r'this->(legacy|lesc)_handle_(\w+)\( input, in_size, output, out_size, state \)', r'\1_handle_\2( input, in_size, output, out_size, state )', '*'),
     (r'(?<![\w>])handle_pairing_request\( input, in_size, output, out_size, state \)', 'handle_pairing_request( input, in_size, output, out_size, state )', '*'),
